@@ -53,6 +53,27 @@ theorem hashSplit_good (B : Nat) (l : Bytes) : Good B (hashSplit l) := by
     exact good_pure _ _
   · exact good_ok _ _
 
+theorem existsAscii_good (B : Nat) (ix : Index) (path : Bytes) : Good B (existsAscii ix path) := by
+  unfold existsAscii
+  simp only
+  split
+  · apply Good.bind' (hashSplit_good B _); intro ⟨dir, name⟩
+    exact good_pure _ _
+  · exact good_ok _ _
+
+theorem extractFlow_good {R E D : Type} (B : Nat) (parse : Option R) (findEntry : R → Option E)
+    (openDat : R → E → Option D) (read : D → E → Res Unit) (hr : ∀ d e, Good B (read d e)) :
+    Good B (extractFlow parse findEntry openDat read) := by
+  unfold extractFlow
+  cases parse with
+  | none => exact Good.bind (by simp [Res.ofOption]) (fun a h => by simp [Res.ofOption, Res.fail] at h)
+  | some r =>
+    apply Good.bind' (by simp [Res.ofOption]); intro r1
+    apply Good.bind' (good_ofOption _ _); intro e
+    apply Good.bind' (by simp [Res.unwrap]); intro r'
+    apply Good.bind' (good_ofOption _ _); intro d
+    exact hr d e
+
 theorem expansionNumber_good (B : Nat) (name : Bytes) : Good B (expansionNumber name) := by
   unfold expansionNumber
   apply Good.bind' (good_guard _ _); intro _
